@@ -1,30 +1,38 @@
-// c17.cpp — runs SpVecGF2 histories on the real parmcb::SpVecGF2<std::size_t>.
+// c17.cpp — runs SpVecGF2 histories on the real parmcb::SpVecGF2<U>:  U = std::size_t (default), or — case prefixed by N8 / N16 —
+// U = std::uint8_t / std::uint16_t (narrow coordinate types, coordinates up to the type's maximum).
 #include "common.hpp"
+#include <cstdint>
 #include <parmcb/spvecgf2.hpp>
-typedef parmcb::SpVecGF2<std::size_t> V;
 
-static std::set<std::size_t> mkset(const std::vector<size_t> &l) { std::set<std::size_t> s; for (auto x : l) s.insert(x); return s; }
+template<class U> static std::set<U> mkset(const std::vector<size_t> &l) { std::set<U> s; for (auto x : l) s.insert((U) x); return s; }
+
+template<class U> static void run_hist(Toks &t, std::ostream &out) {
+    typedef parmcb::SpVecGF2<U> V;
+    size_t K = t.next_sz(); t.next_sz(); size_t nops = t.next_sz();
+    std::vector<V> st(K);
+    out << "O";
+    for (size_t n = 0; n < nops; n++) {
+        std::string o = t.next();
+        if (o == "U") { size_t d = t.next_sz(), i = t.next_sz(); V tmp((U) i); st[d] = tmp; }
+        else if (o == "S") { size_t d = t.next_sz(); auto l = t.next_szlist(); V tmp(mkset<U>(l)); st[d] = tmp; }
+        else if (o == "C") { size_t d = t.next_sz(), a = t.next_sz(); V tmp(st[a]); st[d] = tmp; }
+        else if (o == "M") { size_t d = t.next_sz(), a = t.next_sz(); V tmp(std::move(st[a])); st[d] = std::move(tmp); }
+        else if (o == "A") { size_t d = t.next_sz(), a = t.next_sz(); st[d] = st[a]; }
+        else if (o == "P") { size_t d = t.next_sz(), a = t.next_sz(), b = t.next_sz(); st[d] = st[a] + st[b]; }
+        else if (o == "Q") { size_t d = t.next_sz(), a = t.next_sz(); st[d] += st[a]; }
+        else if (o == "X") { size_t d = t.next_sz(); st[d].clear(); }
+        else if (o == "D") { size_t a = t.next_sz(), b = t.next_sz(); out << " " << (unsigned long long) (st[a] * st[b]); }
+        else if (o == "T") { size_t a = t.next_sz(); auto l = t.next_szlist(); out << " " << (unsigned long long) (st[a] * mkset<U>(l)); }
+        else if (o == "Z") { size_t a = t.next_sz(); out << " " << st[a].size(); }
+        else throw std::runtime_error("bad op " + o);
+    }
+    for (size_t k = 0; k < K; k++) { out << " ; V"; for (auto x : st[k]) out << " " << (unsigned long long) x; }
+}
 
 int main() {
     return run_cases([](Toks &t, std::ostream &out) {
-        size_t K = t.next_sz(); t.next_sz(); size_t nops = t.next_sz();
-        std::vector<V> st(K);
-        out << "O";
-        for (size_t n = 0; n < nops; n++) {
-            std::string o = t.next();
-            if (o == "U") { size_t d = t.next_sz(), i = t.next_sz(); V tmp(i); st[d] = tmp; }
-            else if (o == "S") { size_t d = t.next_sz(); auto l = t.next_szlist(); V tmp(mkset(l)); st[d] = tmp; }
-            else if (o == "C") { size_t d = t.next_sz(), a = t.next_sz(); V tmp(st[a]); st[d] = tmp; }
-            else if (o == "M") { size_t d = t.next_sz(), a = t.next_sz(); V tmp(std::move(st[a])); st[d] = std::move(tmp); }
-            else if (o == "A") { size_t d = t.next_sz(), a = t.next_sz(); st[d] = st[a]; }
-            else if (o == "P") { size_t d = t.next_sz(), a = t.next_sz(), b = t.next_sz(); st[d] = st[a] + st[b]; }
-            else if (o == "Q") { size_t d = t.next_sz(), a = t.next_sz(); st[d] += st[a]; }
-            else if (o == "X") { size_t d = t.next_sz(); st[d].clear(); }
-            else if (o == "D") { size_t a = t.next_sz(), b = t.next_sz(); out << " " << (st[a] * st[b]); }
-            else if (o == "T") { size_t a = t.next_sz(); auto l = t.next_szlist(); out << " " << (st[a] * mkset(l)); }
-            else if (o == "Z") { size_t a = t.next_sz(); out << " " << st[a].size(); }
-            else throw std::runtime_error("bad op " + o);
-        }
-        for (size_t k = 0; k < K; k++) { out << " ; V"; for (auto x : st[k]) out << " " << x; }
+        if (t.a.size() && t.a[0] == "N8") { t.next(); run_hist<std::uint8_t>(t, out); }
+        else if (t.a.size() && t.a[0] == "N16") { t.next(); run_hist<std::uint16_t>(t, out); }
+        else run_hist<std::size_t>(t, out);
     });
 }
